@@ -856,14 +856,14 @@ class Model:
 
 
 # ---------------------------------------------------------------------------------------------- reporting
-_SCALED = re.compile(r"(\.py:|line )(\d{6,})")
+_SCALED = re.compile(r"\b1(\d{9})\b")
 
 
 def unscale(text):
-    """line numbers of functions that received inlined code are scaled by 1000 (sa/canon.py scale_lines); print the source line"""
+    """line numbers of functions that received inlined code are 10^9 + 1000*line + k (sa/canon.py scale_lines); print the source line"""
     if not isinstance(text, str):
         return text
-    return _SCALED.sub(lambda m: m.group(1) + str(int(m.group(2)) // 1000), text)
+    return _SCALED.sub(lambda m: str(int(m.group(1)) // 1000), text)
 
 
 class Finding:
@@ -902,7 +902,7 @@ class Report:
         try:
             return fn(*a, **kw)
         except AnalysisError as e:
-            self.errors.append(str(e))
+            self.errors.append(unscale(str(e)))
             return None
         except RecursionError as e:
             self.errors.append("internal: recursion limit in %s" % getattr(fn, "__name__", "rule"))
